@@ -31,6 +31,7 @@ META = {
     "rule": "a case is the tuple above; distinct = distinct tuple; non-trivial = a ClientHello reached tls_start_client and a certificate was presented",
     "assumptions": [
         "the verifier is stdlib ssl (system libssl) with VERIFY_X509_STRICT; it trusts only the self-signed root of mitmproxy's CA (for the custom chain: the root above the signing CA)",
+        "stdlib ssl sends no SNI for IP literals, so the 'IP literal in the SNI' identities use an equally strict client built on pyOpenSSL (X509_V_FLAG_X509_STRICT, set1_ip, same trust root)",
         "'valid now' is judged against the clock at verification time; mitmproxy's window is -2 days .. +197 days, so the margin is days on both sides",
         "SNI values are host names (letters, digits, hyphen, underscore; IDNs as A-labels). A literal '*' label is not one: ClientHello.sni discards it (C13's subject) and no X.509 "
         "verifier can match it, so the 'wildcard-looking' form of the quantifier is represented on the upstream side (CN/SAN '*.upstream.example')",
@@ -50,6 +51,10 @@ IDENTITIES = {
     "underscore": ("my_host._tcp.example.com", "my_host._tcp.example.com", "underscore"),
     "ipv4-local": ("192.0.2.2", None, "ipv4"),
     "ipv6-local": ("2001:db8::2", None, "ipv6"),
+    # IP literal *in the SNI* (clients that copy the URL host into server_name); the proxy's local address and the
+    # server address are other addresses or names, so only the SNI can put this identity into the certificate
+    "ipv4-sni": ("192.0.2.42", "192.0.2.42", "ipv4-sni"),
+    "ipv6-sni": ("2001:db8::42", "2001:db8::42", "ipv6-sni"),
 }
 THOROUGH_IDENTITIES = {
     "upper": ("WWW.Example.COM", "WWW.Example.COM", "dns-upper"),
@@ -212,7 +217,11 @@ def run_case(c, t: Tally, verbose=False):
         sockname = ("192.0.2.2", 8080)
     rig = tp.Rig("client", env, address=ALL_ADDRS[addr], sockname=sockname, server_certs=[upstream] if upstream is not None else None)
     verifiable = id_kind != "wildcard-looking"
-    peer = client_peer(ca, tls, hostname, verify=verifiable)
+    if id_kind.endswith("-sni"):
+        # stdlib ssl never sends an IP literal as SNI: the equally strict pyOpenSSL-based client does
+        peer = tp.StrictSniClient(p["trust"][ca], hostname, tls)
+    else:
+        peer = client_peer(ca, tls, hostname, verify=verifiable)
     rig.start()
     for _ in range(12):
         back = peer.step()
